@@ -42,6 +42,9 @@ pub struct Gen<'a> {
     /// Remaining node budget of the value being built.
     pub budget: usize,
     pub allow_float: bool,
+    /// Whether objects may get keys that collide after NFC (a per-case decision, so that most
+    /// cases stay eligible for the value-preservation and insertion-order checks).
+    pub allow_collide: bool,
     pub max_depth: usize,
 }
 
@@ -98,7 +101,8 @@ impl Gen<'_> {
     /// Keys of one object: random, prefix/suffix family, NFC-colliding, in random insertion order.
     pub fn keys(&mut self, n: usize) -> Vec<String> {
         let mut ks: Vec<String> = vec![];
-        match self.rng.below(4) {
+        let strategy = if self.allow_collide { self.rng.below(4) } else { self.rng.below(3) };
+        match strategy {
             0 => {
                 for _ in 0..n {
                     ks.push(self.string());
@@ -158,9 +162,9 @@ impl Gen<'_> {
 }
 
 /// A generated value; `want_float` forces at least one float somewhere.
-pub fn gen_value(rng: &mut Rng, want_float: bool) -> Value {
+pub fn gen_value(rng: &mut Rng, want_float: bool, allow_collide: bool) -> Value {
     let budget = *rng.pick(&[3usize, 6, 10, 20, 40]);
-    let mut g = Gen { rng, budget, allow_float: want_float, max_depth: 5 };
+    let mut g = Gen { rng, budget, allow_float: want_float, allow_collide, max_depth: 5 };
     // top level is mostly an object (the interesting shape)
     let mut v = if g.rng.chance(1, 8) { g.value(1) } else {
         let n = 1 + g.rng.usize(6);
@@ -245,7 +249,7 @@ pub fn escape_quoted(s: &str) -> Vec<u8> {
 
 pub fn facts(v: &Value, depth: u64, f: &mut Facts) {
     f.max_depth = f.max_depth.max(depth);
-    let mut note_str = |s: &str, f: &mut Facts| {
+    let note_str = |s: &str, f: &mut Facts| {
         if nfc(s) != s {
             f.non_nfc_strings += 1;
         }
